@@ -80,7 +80,7 @@ func C09(p *core.Program, r *core.Report) {
 	checkSrcsetAgreement(p, r, "W2")
 
 	// ---- W3
-	if ap := mustFunc(p, r, "W3", core.ModPath+".Apply"); ap != nil {
+	if ap := mustInl(p, r, "W3", core.ModPath+".Apply"); ap != nil {
 		c := core.NewCanon(p)
 		vals := map[string]map[string]bool{}
 		for _, b := range ap.Blocks {
@@ -124,7 +124,7 @@ func C09(p *core.Program, r *core.Report) {
 		ci := one("ContentImages")
 		r.Add("W3", "Result.ContentImages are the extractor's image URLs", p.Pos(ap.Pos()), strings.HasSuffix(ci, ".ImageURLs") && strings.Contains(ci, "extractor.NewContentExtractor("), shortVal(ci))
 	}
-	if ec := mustFunc(p, r, "W3", "(*"+extractorPkg+".ContentExtractor).ExtractContent"); ec != nil {
+	if ec := mustInl(p, r, "W3", "(*"+extractorPkg+".ContentExtractor).ExtractContent"); ec != nil {
 		c := core.NewCanon(p)
 		ok := false
 		for _, b := range ec.Blocks {
@@ -146,7 +146,7 @@ func C09(p *core.Program, r *core.Report) {
 	// ---- W4
 	checkTwoPassSkeleton(p, r, "W4")
 	for _, key := range []string{"(*" + webdocPkg + ".Document).GenerateOutput"} {
-		fn := mustFunc(p, r, "W4", key)
+		fn := mustInl(p, r, "W4", key)
 		if fn == nil {
 			continue
 		}
@@ -183,7 +183,7 @@ func C09(p *core.Program, r *core.Report) {
 			}
 			if ifi, ok := b.Instrs[len(b.Instrs)-1].(*ssa.If); ok && b == hs[0] {
 				at, _ := c.CondAtom(ifi.Cond)
-				fwd = at == `(μ((@0 + 1)|-1) + 1) < len($0.Elements)`
+				fwd = at == `μ((@0 + 1)|0) < len($0.Elements)`
 			}
 		}
 		r.Add("W4", "Document.GenerateOutput walks the element list front to back", p.Pos(fn.Pos()), fwd, "")
